@@ -50,7 +50,8 @@ extern "C" void abort(void) {
 // R9: virtual down-cast calls x->as_T_type() go to contract stubs vu_as_T_type(x) (the front end's
 // virtual dispatch of covariant return types crashes symex); the stubs return null or an arbitrary object
 static CPPConstType *vu_as_const_type(CPPType *t) { return nondet_bool() ? (CPPConstType *)0 : (CPPConstType *)vu_alloc(8); }
-static CPPSimpleType *vu_as_simple_type(CPPType *t) { return nondet_bool() ? (CPPSimpleType *)0 : VU_NEW(CPPSimpleType); }
+static CPPSimpleType *g_simple_answer; static bool g_simple_fixed;      // the typecast entry fixes the answer so that the oracle sees the same type
+static CPPSimpleType *vu_as_simple_type(CPPType *t) { if (g_simple_fixed) return g_simple_answer; return nondet_bool() ? (CPPSimpleType *)0 : VU_NEW(CPPSimpleType); }
 static CPPPointerType *vu_as_pointer_type(CPPType *t) { return nondet_bool() ? (CPPPointerType *)0 : (CPPPointerType *)vu_alloc(8); }
 static CPPExtensionType *vu_as_extension_type(CPPType *t) { return nondet_bool() ? (CPPExtensionType *)0 : VU_NEW(CPPExtensionType); }
 static CPPStructType *vu_as_struct_type(CPPType *t) { return nondet_bool() ? (CPPStructType *)0 : VU_NEW(CPPStructType); }
@@ -291,5 +292,31 @@ void h_result_conversions() {
   OBL(r.as_real() == (double)vin_v, "C07.Result: as_real of an int is exact");
   CPPExpression::Result e;
   OBL(e._type == CPPExpression::RT_error, "C07.Result: the default result is the unevaluated marker");
+  VU_REACHED();
+}
+
+// ================= casts to an integer or bool type: (T)a has the value C++ gives it, or is reported as unevaluated
+void h_eval_typecast_int() {
+  int vin_a = nondet_int();
+  g_op1 = &g_o1; g_op2 = 0; g_op3 = 0; g_r1 = int_result(vin_a);
+  CPPSimpleType *st = VU_NEW(CPPSimpleType);
+  int vin_to = nondet_int(), vin_flags = nondet_int(), vin_kind = nondet_int();
+  __CPROVER_assume(vin_to >= CPPSimpleType::T_unknown && vin_to <= CPPSimpleType::T_void && (vin_flags & ~0x1f) == 0);
+  __CPROVER_assume(vin_kind >= CPPExpression::T_typecast && vin_kind <= CPPExpression::T_reinterpret_cast);
+  st->_type = (CPPSimpleType::Type)vin_to; st->_flags = vin_flags;
+  g_simple_fixed = true; g_simple_answer = st;
+  CPPExpression e(0);                              // as CPPExpression::typecast_op builds the node
+  e._type = (CPPExpression::Type)vin_kind; e._u._typecast._to = (CPPType *)vu_alloc(8); e._u._typecast._op1 = &g_o1;
+  CPPExpression::Result r = e.evaluate__body();
+  bool has_spec = false; long want = 0;
+  bool f_short = (vin_flags & CPPSimpleType::F_short) != 0, f_unsigned = (vin_flags & CPPSimpleType::F_unsigned) != 0;
+  if (vin_to == CPPSimpleType::T_bool) { has_spec = true; want = vin_a != 0; }
+  else if (vin_to == CPPSimpleType::T_int) {
+    if (f_short) { has_spec = true; want = f_unsigned ? (long)(unsigned short)vin_a : (long)(short)vin_a; }      // [conv.integral]: modulo 2^16
+    else if (!f_unsigned) { has_spec = true; want = vin_a; }                                                      // int, long, long long: value kept
+    else if (vin_a >= 0) { has_spec = true; want = vin_a; }                                                       // unsigned: kept when representable in int (else outside the property)
+  }
+  if (has_spec) OBL(IS_ERR(r) || (r._type != CPPExpression::RT_real && r._type != CPPExpression::RT_pointer && r.as_integer() == want), "C07.evaluate: a cast to bool or to an integer type yields the value C++ computes ((short)65537 is 1), or the expression is reported as unevaluated");
+  g_simple_fixed = false;
   VU_REACHED();
 }
